@@ -24,11 +24,11 @@ type knownFinding struct {
 	Property string `json:"property"`
 	What     string `json:"what"`
 	// Match: every non-empty field must match the minimised violation.
-	Oracle  string `json:"oracle,omitempty"`
-	Sig     string `json:"sig,omitempty"`      // exact signature
-	WhereRe string `json:"where_re,omitempty"` // regexp over Where
+	Oracle   string `json:"oracle,omitempty"`
+	Sig      string `json:"sig,omitempty"`      // exact signature
+	WhereRe  string `json:"where_re,omitempty"` // regexp over Where
 	DetailRe string `json:"detail_re,omitempty"`
-	DocRe   string `json:"doc_re,omitempty"` // regexp over the bytes of the failing stream document / step documents
+	DocRe    string `json:"doc_re,omitempty"` // regexp over the bytes of the failing stream document / step documents
 	// DocPred: a predicate over the bytes of the failing document(s):
 	// "has_nul" (contains a NUL byte), "invalid_utf8" (contains ill-formed UTF-8).
 	DocPred string `json:"doc_pred,omitempty"`
@@ -174,35 +174,35 @@ func writeEvidence(prop, tier string, seed int64, st *stats, rn *runner, variant
 		samples = append(samples, "no plan finished")
 	}
 	cov := map[string]interface{}{
-		"evaluations":          st.plans,
-		"distinct_nontrivial":  len(st.nontrivial),
-		"rule":                 ruleText(prop),
-		"samples":              samples,
-		"stream_cases_or_steps": st.cases,
-		"logical_steps_simulated_time": st.steps,
-		"note_simulated_time":  "go-json has no clock; simulated time is the logical step counter (reader calls, API steps, yield points)",
-		"plans_per_hour":       int64(perHour),
-		"seeds":                fmt.Sprintf("base seed %d, plan seeds derived as (base, property, index) for index 0..%d", seed, nplans-1),
-		"faults_fired":         st.faults,
-		"reach_probes":         st.probes,
-		"probes_at_zero":       zero,
+		"evaluations":                        st.plans,
+		"distinct_nontrivial":                len(st.nontrivial),
+		"rule":                               ruleText(prop),
+		"samples":                            samples,
+		"stream_cases_or_steps":              st.cases,
+		"logical_steps_simulated_time":       st.steps,
+		"note_simulated_time":                "go-json has no clock; simulated time is the logical step counter (reader calls, API steps, yield points)",
+		"plans_per_hour":                     int64(perHour),
+		"seeds":                              fmt.Sprintf("base seed %d, plan seeds derived as (base, property, index) for index 0..%d", seed, nplans-1),
+		"faults_fired":                       st.faults,
+		"reach_probes":                       st.probes,
+		"probes_at_zero":                     zero,
 		"anchor_function_statement_coverage": covFuncs,
 		"anchor_functions_never_reached":     covZero,
-		"note_coverage":        "statement coverage of the anchor functions measured with Go's coverage instrumentation on a sample of 150 plans (variant plain-cover); only in the thorough tier or with VERIF_COVER=1",
-		"distinct_plans":       len(st.planHashes),
-		"distinct_interleavings": len(st.interleave),
-		"interleaving_measure": "hash of the sequence of (yield counter, site, from-task, to-task) of all task switches of a run",
-		"task_switches":        st.switches,
-		"yield_points_passed":  st.yields,
-		"cold_reference_runs":  rn.coldRuns,
+		"note_coverage":                      "statement coverage of the anchor functions measured with Go's coverage instrumentation on a sample of 150 plans (variant plain-cover); only in the thorough tier or with VERIF_COVER=1",
+		"distinct_plans":                     len(st.planHashes),
+		"distinct_interleavings":             len(st.interleave),
+		"interleaving_measure":               "hash of the sequence of (yield counter, site, from-task, to-task) of all task switches of a run",
+		"task_switches":                      st.switches,
+		"yield_points_passed":                st.yields,
+		"cold_reference_runs":                rn.coldRuns,
 		"sessions_excluded_because_they_die_even_alone": st.excluded,
-		"variants":             vnames,
-		"plans_per_variant":    st.perVariant,
-		"known_findings_hit":   known,
+		"variants":           vnames,
+		"plans_per_variant":  st.perVariant,
+		"known_findings_hit": known,
 		"inconclusive_unreproduced_observation_differences": st.unstable,
-		"real_components":      []string{"all of go-json (built from /repo's working tree)", "Go runtime, garbage collector, race detector (race variants)"},
-		"stub_components":      stubText(vnames),
-		"exhaustive":           false,
+		"real_components": []string{"all of go-json (built from /repo's working tree)", "Go runtime, garbage collector, race detector (race variants)"},
+		"stub_components": stubText(vnames),
+		"exhaustive":      false,
 	}
 	ev := map[string]interface{}{
 		"property_id": prop,
